@@ -19,6 +19,58 @@ KERNEL = {'euclidean': 'euclidean', 'correlation': 'correlation', 'mahalanobis':
           'crossnobis': 'mahalanobis', 'poisson': 'poisson', 'poisson_cv': 'poisson'}
 
 
+# ------------------------------------------------------------------ rebuilt kernel (thorough tier)
+
+REBUILT = None          # extension module built from the tree's cengine/similarity.c, or None
+REBUILD_NOTE = None     # why it is not available
+
+
+def rebuild_kernel():
+    """compile the tree's `similarity.c` (the C text Cython generated from `similarity.pyx`, shipped
+    next to the binary) with gcc into a scratch directory outside the tree and load it beside the
+    shipped extension.  Ties the shipped `.so` to the shipped C text; `.pyx` -> `.c` cannot be
+    regenerated here (no Cython)."""
+    global REBUILT, REBUILD_NOTE
+    import atexit
+    import importlib.machinery
+    import importlib.util
+    import os
+    import shutil
+    import subprocess
+    import sysconfig
+    import tempfile
+    if REBUILT is not None:
+        return REBUILT
+    src = os.path.join(os.environ.get('RSA_REPO_SRC', '/repo/src/rsatoolbox'), 'cengine', 'similarity.c')
+    if not os.path.exists(src):
+        REBUILD_NOTE = f'{src} does not exist'
+        return None
+    out = tempfile.mkdtemp(prefix='c15-rebuild-')
+    atexit.register(shutil.rmtree, out, True)
+    so = os.path.join(out, 'similarity' + (sysconfig.get_config_var('EXT_SUFFIX') or '.so'))
+    cmd = ['gcc', '-shared', '-fPIC', '-O2', '-fno-strict-aliasing',
+           '-I', sysconfig.get_paths()['include'], '-I', np.get_include(), src, '-o', so]
+    try:
+        p = subprocess.run(cmd, stdout=subprocess.PIPE, stderr=subprocess.STDOUT, timeout=600)
+    except (OSError, subprocess.TimeoutExpired) as exc:
+        REBUILD_NOTE = f'gcc not runnable: {exc}'
+        return None
+    if p.returncode != 0:
+        REBUILD_NOTE = 'gcc failed: ' + p.stdout.decode(errors='replace')[-300:]
+        return None
+    try:
+        import rsatoolbox.rdm.calc_unbalanced  # noqa: F401  (numpy / scipy C-API initialised as for the shipped one)
+        loader = importlib.machinery.ExtensionFileLoader('c15_rebuilt.similarity', so)
+        spec = importlib.util.spec_from_file_location('c15_rebuilt.similarity', so, loader=loader)
+        mod = importlib.util.module_from_spec(spec)
+        spec.loader.exec_module(mod)
+    except Exception as exc:  # noqa: BLE001
+        REBUILD_NOTE = f'rebuilt module does not load: {type(exc).__name__}: {exc}'
+        return None
+    REBUILT = mod
+    return mod
+
+
 class Degenerate(Exception):
     """input outside what the property speaks about (constant pattern for a correlation)"""
 
@@ -130,24 +182,76 @@ def vec_diff(v1, v2, rtol=1e-9, atol=1e-10):
 
 # ------------------------------------------------------------------ the real code
 
+NP_DTYPE = {'int': np.int64, 'int32': np.int32, 'int16': np.int16, 'uint8': np.uint8,
+            'float': np.float64, 'float32': np.float32}
+LAYOUTS = ('C', 'F', 'strided', 'reversed')
+
+
+def dtype_ok(case, dt, vals=None):
+    """can the values of the case be stored exactly in that dtype?  (small dyadic values:
+    always in float32/float64; integer dtypes need integral values and no missing entry)"""
+    vals = case['vals'] if vals is None else vals
+    if dt == 'float':
+        return True
+    if dt == 'float32':
+        sc = case['scale']
+        return all(v is None or float(np.float32(v / sc)) == v / sc for row in vals for v in row)
+    if case['scale'] != 1 or any(v is None for row in vals for v in row):
+        return False
+    if dt == 'uint8':
+        return all(v >= 0 for row in vals for v in row)
+    return True
+
+
 def _matrix(case, dtype=None, order=None, vals=None):
+    """the measurement array as the user holds it: values, dtype and memory layout
+    (C / Fortran contiguous, a strided slice of a larger array, a view with negative strides)"""
     vals = case['vals'] if vals is None else vals
     X = np.array([[np.nan if v is None else v / case['scale'] for v in row] for row in vals],
                  dtype=np.float64)
-    if (dtype or case['dtype']) == 'int':
-        X = X.astype(np.int64)
-    if (order or case['order']) == 'F':
+    dt = dtype or case['dtype']
+    if dt != 'float':
+        X = X.astype(NP_DTYPE[dt])
+    lay = order or case['order']
+    if lay == 'F':
         X = np.asfortranarray(X)
+    elif lay == 'strided':
+        big = np.full((2 * X.shape[0] + 1, 3 * X.shape[1] + 2), 99, dtype=X.dtype)
+        big[1::2, 2::3] = X
+        X = big[1::2, 2::3]
+    elif lay == 'reversed':
+        X = np.ascontiguousarray(X[::-1, ::-1])[::-1, ::-1]
     else:
         X = np.ascontiguousarray(X)
     return X
+
+
+def raw_view(X):
+    """flat element buffer, offset and strides (in elements) of a 2-d array, read from memory"""
+    import ctypes
+    from numpy.lib.array_utils import byte_bounds
+    lo, hi = byte_bounds(X)
+    it = X.itemsize
+    flat = np.frombuffer(ctypes.string_at(lo, hi - lo), dtype=X.dtype)
+    return flat, (X.ctypes.data - lo) // it, X.strides[0] // it, X.strides[1] // it
+
+
+def observe_layout(case):
+    """what `ensure_double` of the tree makes of the array: strides (elements) and content"""
+    from rsatoolbox.rdm.calc_unbalanced import ensure_double
+    E = ensure_double(_matrix(case))
+    if E.dtype != np.float64 or E.ndim != 2:
+        return {'exc': f'ensure_double returned {E.dtype} ndim {E.ndim}'}
+    return {'s0': E.strides[0] // 8, 's1': E.strides[1] // 8,
+            'read': [[float(v) for v in row] for row in E]}
 
 
 def _noise(case, noise=None):
     noise = case['noise'] if noise is None else noise
     if noise is None:
         return None
-    return np.array(noise, dtype=np.float64) / case['noise_scale']
+    N = np.array(noise, dtype=np.float64) / case['noise_scale']
+    return np.asfortranarray(N) if case.get('noise_order') == 'F' else N
 
 
 def kind_of(case, which):
@@ -174,6 +278,16 @@ def _descriptor(values, kind):
         return np.array(values, dtype=np.float32)
     if kind == 'bool':
         return np.array(values, dtype=bool)
+    if kind == 'float16':
+        return np.array(values, dtype=np.float16)
+    if kind == 'uint8':
+        return np.array(values, dtype=np.uint8)
+    if kind == 'int32':
+        return np.array(values, dtype=np.int32)
+    if kind == 'bytes':
+        return np.array([v.encode() for v in values])
+    if kind == 'pylist':
+        return [int(v) for v in values]              # a plain python list of ints
     if kind == 'npstr':
         return [np.str_(v) for v in values]          # a plain list of numpy strings
     if kind in ('int', 'negint', 'bigint'):
@@ -192,14 +306,28 @@ def _dataset(case, X):
 
 
 def _py(x):
-    return x.item() if hasattr(x, 'item') else x
+    x = x.item() if hasattr(x, 'item') else x
+    return x.decode() if isinstance(x, bytes) else x
 
 
-def call_unbalanced(case, X, noise='case'):
-    """real calc_rdm_unbalanced; returns labels, rdm and the raw buffer of `calc`"""
+def opt_kwargs(case, weighting=True):
+    """prior_lambda / prior_weight / weighting; a case flagged `defaults` (lam = 1, pw = 0.1,
+    weighting 'number') leaves them to the defaults of the signature"""
+    if case.get('defaults'):
+        return {}
+    kw = {'prior_lambda': case['lam'], 'prior_weight': case['pw']}
+    if weighting:
+        kw['weighting'] = case['weighting']
+    return kw
+
+
+def call_unbalanced(case, X, noise='case', kernel=None):
+    """real calc_rdm_unbalanced; returns labels, rdm and the raw buffer of `calc`
+    (`kernel`: run the Python layer on the `calc` of another build of the extension)"""
     from rsatoolbox.rdm import calc_unbalanced as cu
     rec = {}
-    orig = cu.calc
+    orig = cu.calc if kernel is None else kernel.calc
+    shipped = cu.calc
 
     def tap(*a, **k):
         out = orig(*a, **k)
@@ -214,13 +342,12 @@ def call_unbalanced(case, X, noise='case'):
             r = cu.calc_rdm_unbalanced(
                 _dataset(case, X), method=case['method'],
                 descriptor=None if case.get('nodesc') else 'cond', noise=N,
-                cv_descriptor='fold' if case['folds'] is not None else None,
-                prior_lambda=case['lam'], prior_weight=case['pw'], weighting=case['weighting'])
+                cv_descriptor='fold' if case['folds'] is not None else None, **opt_kwargs(case))
     except (ValueError, TypeError, AssertionError, IndexError, KeyError, AttributeError,
             ZeroDivisionError, NotImplementedError) as exc:
         return {'exc': type(exc).__name__}
     finally:
-        cu.calc = orig
+        cu.calc = shipped
     return {'labels': [_py(v) for v in r.pattern_descriptors['index' if case.get('nodesc') else 'cond']],
             'rdm': [float(v) for v in r.dissimilarities[0]], 'buf': rec.get('buf')}
 
@@ -250,7 +377,7 @@ def call_list(case):
             r = cu.calc_rdm_unbalanced(
                 dss, method=case['method'], descriptor=None if case.get('nodesc') else 'cond',
                 noise=N, cv_descriptor='fold' if case['folds'] is not None else None,
-                prior_lambda=case['lam'], prior_weight=case['pw'], weighting=case['weighting'])
+                **opt_kwargs(case))
     except (ValueError, TypeError, AssertionError, IndexError, KeyError, AttributeError,
             ZeroDivisionError, NotImplementedError) as exc:
         return {'exc': type(exc).__name__}
@@ -266,7 +393,7 @@ def call_balanced(case):
             r = calc_rdm(_dataset(case, _matrix(case, 'float', 'C')), method=case['method'],
                          descriptor=None if case.get('nodesc') else 'cond', noise=_noise(case),
                          cv_descriptor='fold' if case['folds'] is not None else None,
-                         prior_lambda=case['lam'], prior_weight=case['pw'])
+                         **opt_kwargs(case, weighting=False))
     except (ValueError, TypeError, AssertionError, IndexError, KeyError, AttributeError,
             ZeroDivisionError, NotImplementedError) as exc:
         return {'exc': type(exc).__name__}
@@ -287,9 +414,13 @@ def one_cv_codes(case, ia, ib):
     return list(ia), list(ib)
 
 
-def call_one(case):
+def call_one(case, kernel=None):
     from rsatoolbox.data import Dataset
+    from rsatoolbox.rdm import calc_unbalanced as cu
     from rsatoolbox.rdm.calc_unbalanced import calc_one_similarity
+    shipped_one = cu.calc_one
+    if kernel is not None:
+        cu.calc_one = kernel.calc_one
     a, b = case['one']
     ia = [i for i, l in enumerate(case['labels']) if l == a]
     ib = [i for i, l in enumerate(case['labels']) if l == b]
@@ -301,9 +432,11 @@ def call_one(case):
             v, w = calc_one_similarity(
                 Dataset(X[ia]), Dataset(X[ib]), np.array(cva, dtype=np.int64),
                 np.array(cvb, dtype=np.int64), method=case['method'], noise=_noise(case),
-                weighting=case['weighting'], prior_lambda=case['lam'], prior_weight=case['pw'])
+                **opt_kwargs(case))
     except (ValueError, TypeError, AssertionError, IndexError, KeyError, AttributeError) as exc:
         return {'exc': type(exc).__name__}
+    finally:
+        cu.calc_one = shipped_one
     return [float(v), float(w)]
 
 
@@ -327,6 +460,17 @@ def observe(case, full=False):
         if isinstance(o, dict):
             return {'exc': 'calc_one:' + o['exc']}
         r['one'] = o
+    r['layout'] = observe_layout(case)
+    r['rebuilt'] = None
+    if REBUILT is not None:
+        rb = call_unbalanced(case, _matrix(case), kernel=REBUILT)
+        if 'exc' in rb:
+            r['rebuilt'] = {'exc': rb['exc']}
+        else:
+            r['rebuilt'] = {'buf': rb['buf'], 'rdm': rb['rdm'], 'one': None}
+            if case.get('one'):
+                o = call_one(case, kernel=REBUILT)
+                r['rebuilt']['one'] = o if isinstance(o, list) else ['exc', o['exc']]
     r['multi'] = None
     if case.get('extra'):
         m = call_list(case)
@@ -553,8 +697,11 @@ def oracle(case, light=False):
                          as_map(base['labels'], base['rdm']), bal, violation='balanced',
                          signature='none')
     # 5. integer and float inputs, C- and Fortran-ordered arrays give the same result
-    for dtype, order in (('float', 'C'), ('float', 'F'), ('int', 'C'), ('int', 'F')):
-        if dtype == 'int' and (has_missing(case) or case['scale'] != 1):
+    combos = [(dt, lay) for dt in ('float', 'int', 'float32', 'int32', 'uint8') for lay in LAYOUTS]
+    if light:
+        combos = [c for c in combos if c[0] in ('float', 'int') and c[1] in ('C', 'F')]
+    for dtype, order in combos:
+        if not dtype_ok(case, dtype):
             continue
         v = call_unbalanced(case, _matrix(case, dtype, order))
         if 'exc' in v or vec_diff(v['rdm'], base['rdm'], 1e-12, 1e-12 + atol * 1e-3):
